@@ -180,6 +180,11 @@ func Gen(prop, tier string, seed uint64) *kernel.Plan {
 	if prop == "C11" {
 		wPar = 6
 	}
+	if prop == "C05" || prop == "C06" || prop == "C13" {
+		// Sync calls of different clients overlap in real deployments (a late subscriber's first sync
+		// while somebody pushes): a few simultaneous syncs with seeded interleaving of their commands
+		wPar = 5
+	}
 	for i := 0; i < nev; i++ {
 		a := g.Intn(nAct)
 		switch g.Pick([]int{wLocal, wTx, wSync, wPar, wAdv, wLate, wRogue, wReset, wPatch, wWire}) {
@@ -316,6 +321,14 @@ func Gen(prop, tier string, seed uint64) *kernel.Plan {
 			// late subscriber
 			k := c.keys[g.Intn(len(c.keys))]
 			evs = append(evs, Ev{T: "open", A: a, K: k, Kind: c.kindOf[k], Mode: []string{"subscribe", "soc"}[g.Intn(2)]})
+			if wPar > 0 && nAct > 1 && g.Chance(1, 2) {
+				// its first sync at the same moment as somebody else's push
+				b := (a + 1 + g.Intn(nAct-1)) % nAct
+				evs = append(evs, c.localEv(b))
+				e := Ev{T: "par", S: g.U64() % 100000, Par: []int{a, b}}
+				c.decorate(&e)
+				evs = append(evs, e)
+			}
 		}
 	}
 	cb, _ := json.Marshal(cfg)
